@@ -3,7 +3,7 @@
 (* matrices / interpolators / point sources recorded from the real classes.   *)
 (* Events of a scenario (same sid):                                            *)
 (*   pos 1   "Mesh"   kind, p (integer coordinates, common scale), t          *)
-(*   [pos 2  "Basis"  elem, family, tolclass, ncomp, ndofs, edofs, y, vdof]   *)
+(*   [pos 2  "Basis"  elem, family, tolclass, ncomp, ndofs, edofs, y, y2, vdof] *)
 (*   then    "Find"   pts, res, err [, model = 1: compare with FindImpl]       *)
 (*           "FindBig" pts, res, err, hint (witness cell per point, 0 = far    *)
 (*                    outside), rank (1: report the centroid rank of pts[1])   *)
@@ -30,7 +30,7 @@ BasisWF(m, e) ==
   /\ e.err = ""
   /\ Len(e.edofs) = Len(m.t)
   /\ \A k \in DOMAIN e.edofs : Len(e.edofs[k]) = Len(e.edofs[1]) /\ \A j \in DOMAIN e.edofs[k] : e.edofs[k][j] \in 1..e.ndofs
-  /\ Len(e.y) = e.ndofs
+  /\ Len(e.y) = e.ndofs /\ Len(e.y2) = e.ndofs
   /\ e.ncomp >= 1
   /\ (e.family = "P1") => (Len(e.vdof) = Len(m.p) /\ \A v \in DOMAIN e.vdof : e.vdof[v] \in 1..e.ndofs)
 
@@ -98,18 +98,26 @@ Eval(e, s) ==
            THEN \* all points were located: probing must not raise
                 [cl |-> [NoUnexpectedError |-> FALSE], info |-> {"Info_ProbeRaised"}, st |-> s]
            ELSE IF ~ProbeWellFormed(s.m, s.b, e) THEN [cl |-> [ProbeWellFormed |-> FALSE], info |-> {}, st |-> s]
-           ELSE LET pv == PointValues(s.m, s.b, e, ct) IN
+           ELSE LET \* complex coefficient vectors y + i y2 are validated part by part: an event with ypart = "im"
+                    \* carries the imaginary parts of the returned values and is judged against y2
+                    im == e.ypart = "im"
+                    bb == IF im THEN [s.b EXCEPT !.y = s.b.y2] ELSE s.b
+                    pv0 == PointValues(s.m, bb, e, ct)
+                    pv == IF im THEN {<<a[1], a[2] + 1000, a[3], a[4]>> : a \in pv0} ELSE pv0
+                IN
                 [cl |-> [ProbeWellFormed |-> TRUE, NoUnexpectedError |-> TRUE,
                          FoundCellContainsPoint |-> FoundCellContainsPoint(s.m, e.pts, e.cells, "", ct),
-                         ProbeRows |-> ProbeRows(s.m, s.b, e, ct),
-                         LocalExpansion |-> LocalExpansion(s.m, s.b, e),
-                         SamePointSameValue |-> SamePointSameValue(s.b, pv, s.seen)]
-                        @@ (IF P1Applicable(s.m, s.b) THEN [P1Exact |-> P1Exact(s.m, s.b, e, ct)] ELSE <<>>)
-                        @@ (IF e.ref # <<>> THEN [AgreesWithInterpolate |-> AgreesWithInterpolate(s.m, s.b, e)] ELSE <<>>)
-                        @@ (IF e.op = "point_source" THEN [PointSourceOK |-> PointSourceOK(s.m, s.b, e, ct)] ELSE <<>>),
-                 info |-> {"Info_op_" \o e.op}
+                         ProbeRows |-> ProbeRows(s.m, bb, e, ct),
+                         LocalExpansion |-> LocalExpansion(s.m, bb, e),
+                         SamePointSameValue |-> SamePointSameValue(bb, pv, s.seen)]
+                        @@ (IF P1Applicable(s.m, bb) THEN [P1Exact |-> P1Exact(s.m, bb, e, ct)] ELSE <<>>)
+                        @@ (IF e.ref # <<>> THEN [AgreesWithInterpolate |-> AgreesWithInterpolate(s.m, bb, e)] ELSE <<>>)
+                        @@ (IF e.op = "point_source" THEN [PointSourceOK |-> PointSourceOK(s.m, bb, e, ct)] ELSE <<>>),
+                 info |-> {"Info_op_" \o e.op, "Info_coef_" \o e.coef \o "_" \o e.ypart}
                           \cup (IF \E a \in pv : \E q \in s.seen : q[1] = a[1] THEN {"Info_PointSeenBefore"} ELSE {})
                           \cup (IF Len(e.pts) = 1 THEN {"Info_SinglePoint"} ELSE {})
+                          \cup (IF e.gscale # 0 THEN {"Info_GeometryScaled"} ELSE {})
+                          \cup (IF e.exactref = 1 THEN {"Info_ReferencePointKnownExactly"} ELSE {})
                           \cup (IF \E n1, n2 \in DOMAIN e.pts : n1 # n2 /\ e.pts[n1] = e.pts[n2] THEN {"Info_RepeatedPoint"} ELSE {}),
                  st |-> [s EXCEPT !.seen = s.seen \cup pv]]
     [] OTHER -> [cl |-> [KnownEvent |-> FALSE], info |-> {}, st |-> s]
